@@ -4,7 +4,7 @@ CHECK = {
     "parts": [
         {"pkg": "handshake", "files": ["handshake/hsgen_test.go", "handshake/c05_test.go"], "run": "^TestC05",
          "quick": {"scale": 1, "shards": 1, "timeout": 300},
-         "thorough": {"scale": 10, "shards": 8, "timeout": 900}},
+         "thorough": {"scale": 20, "shards": 8, "timeout": 900}},
     ],
     "rule": "machine level: rapid histories of 4..40 steps over an identity zoo (4 honest identities with v1/v2/v1+v2 "
             "certificates, malicious-but-trusted M, untrusted-CA, expired, blocklisted, and three key-mismatch kinds: stolen "
